@@ -1,4 +1,10 @@
-"""Relay-side harness: real CarbonClientManager / factories / protocols on a fake reactor."""
+"""Relay-side harness: real CarbonClientManager / factories / protocols / RelayProcessor on a fake reactor.
+
+`boot_relay()` boots carbon-relay once per process (SEND_QUEUE_* constants are frozen at import).  `Seq` builds a fresh
+manager through carbon's own `setupRelayProcessor` for every event sequence, drives the event alphabet of C07/C09 and
+keeps the boundary records (acceptances at factory.sendDatapoint, bytes on every StringTransport, counters)."""
+import math
+import pickle
 import random
 import struct
 
@@ -30,7 +36,6 @@ def boot_relay(conf, files=None, program='carbon-relay', pipeline=('relay',)):
   fake = fakereactor.FakeReactor()
   import carbon.client as client
   client.reactor = fake
-  import twisted.internet.reactor as real_reactor   # noqa  (callWhenRunning on the real, never-run reactor is harmless)
   from carbon import service
   from twisted.application.service import MultiService
   root = MultiService()
@@ -52,7 +57,6 @@ def deliver_disconnects(fake, reason=None):
 
 
 def decode_pickle_stream(data):
-  import pickle
   out = []
   i = 0
   while i + 4 <= len(data):
@@ -74,3 +78,430 @@ def decode_line_stream(data):
 
 def seed_all(seed):
   random.seed(seed)
+
+
+# ----------------------------------------------------------------------------------------------- event sequences
+ALPHABET = ['arrive', 'arrive_hp', 'conn_made', 'conn_lost', 'conn_failed', 'pause', 'resume',
+            'adv_defer', 'adv_next', 'adv_60', 'stop']
+
+
+class Seq(object):
+  """One event sequence on a fresh relay (fresh router, manager, factories, fake reactor)."""
+
+  def __init__(self, ns, dests, receivers=0):
+    from vlib import fakereactor
+    import carbon.client as client
+    from carbon import service, state, events, instrumentation
+    from twisted.application.service import MultiService
+    self.ns = ns
+    self.settings = ns.settings
+    self.client = client
+    self.state = state
+    self.events = events
+    self.instr = instrumentation
+    random.seed(777)
+    self.fake = fakereactor.FakeReactor()
+    client.reactor = self.fake
+    instrumentation.stats.clear()
+    state.metricReceiversPaused = False
+    state.cacheTooFull = False
+    old = state.client_manager
+    if old is not None:
+      events.resumeReceivingMetrics.removeHandler(old.client_factories[None].reinjectDatapoints)
+    prev = getattr(ns, '_verif_prev_seq', None)
+    if prev is not None:
+      events.resumeReceivingMetrics.removeHandler(prev._fake_reinject)
+      prev.close()
+    ns._verif_prev_seq = self
+    self.settings['DESTINATIONS'] = ['%s:%d:%s' % d for d in dests]
+    self.dests = list(dests)
+    self.root = MultiService()
+    service.setupRelayProcessor(self.root, self.settings)     # carbon's own wiring
+    self.manager = state.client_manager
+    self.root.startService()
+    self.hard = client.SEND_QUEUE_HARD_MAX
+    self.low = client.SEND_QUEUE_LOW_WATERMARK
+    self.maxq = self.settings.MAX_QUEUE_SIZE
+    self.cap = int(math.ceil(self.hard))
+    self.nid = 0
+    self.stopped = False
+    self.violations = []
+    self.entries = {}          # factory key -> list of dict(id, hp, outcome)
+    self.reinjected = {}       # factory key -> list of ids removed by destinationDown
+    self.hp_ids = set()
+    self.log = []
+    self.counters = dict(arrivals=0, hp_arrivals=0, accepted=0, refused=0, reinjected=0, writes_decoded=0, events=0,
+                         inapplicable=0, stop_raised=0, pauses_seen=0)
+    self.was_paused = False
+    self.closed_by_harness = set()
+    self.fmap = dict(self.manager.client_factories)
+    for d, f in self.fmap.items():
+      self._wrap_factory(d, f)
+    self._wrap_fake(self.fmap[None])
+    self.protos = []
+    if receivers:
+      self.add_receivers(receivers)
+
+  # ---------------------------------------------------------------------------- recorders at the factory boundary
+  def _fname(self, d):
+    return 'fake' if d is None else '%s:%d:%s' % d
+
+  def _wrap_factory(self, d, f):
+    key = self._fname(d)
+    self.entries[key] = []
+    self.reinjected[key] = []
+    if d is not None:
+      f.clock = self.fake
+    real_send = f.sendDatapoint
+    real_hp = f.sendHighPriorityDatapoint
+    seq = self
+
+    def get_drops():
+      return seq.instr.stats.get(getattr(f, 'fullQueueDrops', '?'), 0)
+
+    def qsize():
+      return len(f.queue)
+
+    def send(metric, datapoint, _hp=False):
+      q0, d0 = qsize(), get_drops()
+      (real_hp if _hp else real_send)(metric, datapoint)
+      q1, d1 = qsize(), get_drops()
+      ident = int(datapoint[0])
+      if q1 == q0 + 1 and d1 == d0:
+        oc = 'accepted'
+        seq.counters['accepted'] += 1
+        if d is not None and not _hp and q0 >= seq.hard:
+          seq.viol('queue/admitted-over-hard-limit', '%s admitted id %d with queue size %d >= hard limit %s' % (key, ident, q0, seq.hard))
+      elif q1 == q0 and d1 == d0 + 1:
+        oc = 'refused'
+        seq.counters['refused'] += 1
+        if q0 < seq.hard:
+          seq.viol('queue/drop-below-hard-limit', '%s discarded id %d with queue size %d < hard limit %s' % (key, ident, q0, seq.hard))
+      else:
+        oc = 'anomalous'
+        seq.viol('queue/uncounted-discard', '%s.sendDatapoint(id %d): queue %d -> %d, fullQueueDrops %d -> %d (neither enqueued nor counted)' % (
+          key, ident, q0, q1, d0, d1))
+      seq.entries[key].append(dict(id=ident, hp=_hp, outcome=oc))
+      if _hp:
+        seq.hp_ids.add(ident)
+    f.sendDatapoint = send
+    f.sendHighPriorityDatapoint = lambda m, dp: send(m, dp, True)
+    if d is not None:
+      real_down = f.destinationDown
+
+      def down(destination):
+        before = [int(x[1][0]) for x in f.queue]
+        had = seq.manager.router.hasDestination(destination)
+        n_before = dict((k, len(v)) for k, v in seq.entries.items())
+        real_down(destination)
+        after = [int(x[1][0]) for x in f.queue]
+        if had and not seq.manager.router.hasDestination(destination) and before:
+          # the dynamic router dropped this destination: its queue must have been re-injected, each datapoint exactly once
+          new_ids = []
+          for k, v in seq.entries.items():
+            new_ids.extend(e['id'] for e in v[n_before[k]:])
+          moved = []
+          for i in before:
+            if i in new_ids:
+              new_ids.remove(i)
+              moved.append(i)
+            elif seq.stopped:
+              seq.counters['post_stop_buffer_unchecked'] = seq.counters.get('post_stop_buffer_unchecked', 0) + 1
+              moved.append(i)
+            elif i not in after:
+              seq.viol('reroute/lost', 'destination %s declared down with id %d queued, which was not re-routed to any factory' % (key, i))
+              moved.append(i)
+          still = [i for i in moved if i in after]
+          if still and not seq.stopped:
+            seq.viol('reroute/duplicated', 'destination %s declared down: ids %r were re-routed but are also still queued here' % (key, still))
+          gone = list(before)
+          for i in after:
+            if i in gone:
+              gone.remove(i)
+          seq.reinjected[key].extend(gone)
+          seq.counters['reinjected'] += len(moved)
+        elif before != after:
+          seq.viol('reroute/queue-changed', 'destinationDown(%s) changed the queue %r -> %r without removing the destination' % (key, before, after))
+      f.destinationDown = down
+
+  def _wrap_fake(self, ff):
+    seq = self
+    real = ff.reinjectDatapoints
+    self.events.resumeReceivingMetrics.removeHandler(real)
+
+    def reinject():
+      before = [int(x[1][0]) for x in ff.queue]
+      n_before = dict((k, len(v)) for k, v in seq.entries.items())
+      real()
+      after = [int(x[1][0]) for x in ff.queue]
+      new_ids = []
+      for k, v in seq.entries.items():
+        new_ids.extend(e['id'] for e in v[n_before[k]:])
+      gone = list(before)
+      for i in after:
+        if i in gone:
+          gone.remove(i)
+      for i in gone:
+        if i in new_ids:
+          new_ids.remove(i)
+        elif seq.stopped:
+          # after the orderly stop the manager has forgotten its factories; what happens to datapoints still buffered
+          # for "no destination" is outside C07's statement
+          seq.counters['post_stop_buffer_unchecked'] = seq.counters.get('post_stop_buffer_unchecked', 0) + 1
+        else:
+          seq.viol('reroute/buffer-lost', 'id %d buffered while no destination was available vanished without being re-injected' % i)
+      seq.reinjected['fake'].extend(gone)
+    self._fake_reinject = reinject
+    self.events.resumeReceivingMetrics.addHandler(reinject)
+
+  def viol(self, sig, msg):
+    self.violations.append((sig, msg))
+
+  def add_receivers(self, n):
+    from twisted.internet.testing import StringTransport
+    import carbon.protocols as P
+    for _ in range(n):
+      p = P.MetricLineReceiver()
+      p.makeConnection(StringTransport())
+      self.protos.append(p)
+
+  def close(self):
+    from vlib import proto as _p
+    for p in self.protos:
+      _p.close(p)
+
+  # ---------------------------------------------------------------------------- helpers
+  def factory(self, i):
+    return self.fmap.get(self.dests[i])
+
+  def connector(self, i):
+    f = self.factory(i)
+    return getattr(f, 'connector', None) if f is not None else None
+
+  def apply(self, ev, i=0):
+    """Returns False if the event is not applicable in the current state (nothing executed)."""
+    self.counters['events'] += 1
+    ok = getattr(self, 'ev_' + ev)(i)
+    if ok is False:
+      self.counters['inapplicable'] += 1
+      return False
+    self.log.append((ev, i))
+    self.after_event()
+    return True
+
+  def after_event(self):
+    # transports on which the client called loseConnection() close now (one legitimate ordering)
+    for c in list(self.fake.connectors):
+      if c.state == 'connected' and c.transport is not None and c.transport.disconnecting:
+        f = c.factory
+        if self.stopped and len(f.queue) > 0 and id(c) not in self.closed_by_harness:
+          self.viol('stop/closed-with-queue', 'destination %s closed by an orderly stop while %d datapoints were still queued' % (
+            self._fname(f.destination), len(f.queue)))
+        c.h_connection_lost(Failure(error.ConnectionDone()))
+    self.check_invariants()
+    if self.state.metricReceiversPaused:
+      self.was_paused = True
+      self.counters['pauses_seen'] += 1
+
+  # ---------------------------------------------------------------------------- events
+  def ev_arrive(self, i):
+    if self.stopped:
+      return False
+    self.nid += 1
+    self.counters['arrivals'] += 1
+    name = 'id%d' % self.nid
+    self.events.metricReceived(name, (self.nid, float(self.nid)))
+
+  def ev_fill(self, i):
+    """Macro event: datapoints keep arriving until the receivers get paused (bounded)."""
+    if self.stopped or self.state.metricReceiversPaused:
+      return False
+    for _ in range(60):
+      self.ev_arrive(i)
+      if self.state.metricReceiversPaused:
+        break
+      if _ % 3 == 2:
+        self.fake.advance(self.settings.TIME_TO_DEFER_SENDING)
+
+  def ev_arrive_hp(self, i):
+    if self.stopped:
+      return False
+    self.nid += 1
+    self.counters['hp_arrivals'] += 1
+    self.manager.sendHighPriorityDatapoint('id%d' % self.nid, (self.nid, float(self.nid)))
+
+  def ev_conn_made(self, i):
+    c = self.connector(i)
+    if c is None or c.state != 'connecting':
+      return False
+    c.h_connection_made()
+
+  def ev_conn_lost(self, i):
+    c = self.connector(i)
+    if c is None or c.state != 'connected':
+      return False
+    self.closed_by_harness.add(id(c))
+    c.h_connection_lost()
+
+  def ev_conn_failed(self, i):
+    c = self.connector(i)
+    if c is None or c.state != 'connecting':
+      return False
+    c.h_connect_failed()
+
+  def ev_pause(self, i):
+    c = self.connector(i)
+    if c is None or c.state != 'connected' or c.protocol is None or c.protocol.paused:
+      return False
+    if getattr(c.transport, 'producer', None) is None:
+      return False
+    c.protocol.pauseProducing()
+
+  def ev_resume(self, i):
+    c = self.connector(i)
+    if c is None or c.state != 'connected' or c.protocol is None or not c.protocol.paused:
+      return False
+    c.protocol.resumeProducing()
+
+  def ev_adv_defer(self, i):
+    self.fake.advance(self.settings.TIME_TO_DEFER_SENDING)
+
+  def ev_adv_next(self, i):
+    calls = self.fake.getDelayedCalls()
+    if not calls:
+      return False
+    t = min(c.getTime() for c in calls)
+    self.fake.advance(max(0.0, t - self.fake.seconds()))
+
+  def ev_adv_60(self, i):
+    self.fake.advance(60)
+
+  def ev_stop(self, i):
+    if self.stopped:
+      return False
+    self.stopped = True
+    try:
+      self.root.stopService()
+    except Exception as e:
+      self.counters['stop_raised'] += 1
+      self.stop_exc = e
+
+  # ---------------------------------------------------------------------------- oracles
+  def written(self, d):
+    """Ids decoded from every transport of destination d, in connection order."""
+    out = []
+    for c, t in self.fake.transports:
+      if c.factory.destination != d:
+        continue
+      data = t.value()
+      if not data:
+        continue
+      if self.settings.DESTINATION_PROTOCOL == 'pickle':
+        for msg in decode_pickle_stream(data):
+          for (m, (ts, v)) in msg:
+            out.append((int(ts), m, v))
+      else:
+        for (m, v, ts) in decode_line_stream(data):
+          out.append((int(ts), m, float(v)))
+    return out
+
+  def check_invariants(self):
+    from collections import Counter
+    stats = self.instr.stats
+    for d in self.dests:
+      key = self._fname(d)
+      f = self.fmap.get(d)
+      if f is None:
+        continue
+      ents = self.entries[key]
+      acc = [e for e in ents if e['outcome'] == 'accepted']
+      w = self.written(d)
+      wid = [x[0] for x in w]
+      for (i, m, v) in w:
+        if m != 'id%d' % i or v != float(i):
+          self.viol('wire/altered', '%s: datapoint id %d written as (%r, %r)' % (key, i, m, v))
+      q = [int(x[1][0]) for x in f.queue]
+      cw, ca = Counter(wid), Counter(e['id'] for e in acc)
+      for i, n in cw.items():
+        if n > ca.get(i, 0):
+          self.viol('wire/duplicate' if ca.get(i, 0) else 'wire/never-accepted',
+                    '%s: id %d written %d times but accepted %d times' % (key, i, n, ca.get(i, 0)))
+      # order: normal datapoints leave in arrival order
+      wn = [i for i in wid if i not in self.hp_ids]
+      an = [e['id'] for e in acc if not e['hp']]
+      pos = 0
+      for i in wn:
+        try:
+          pos = an.index(i, pos) + 1
+        except ValueError:
+          self.viol('wire/out-of-order', '%s: normal datapoints written in order %r but accepted in order %r' % (key, wn, an))
+          break
+      # conservation per destination
+      rest = Counter(e['id'] for e in acc)
+      rest.subtract(cw)
+      rest.subtract(Counter(q))
+      rest.subtract(Counter(self.reinjected[key]))
+      bad = {i: n for i, n in rest.items() if n != 0}
+      if bad:
+        missing = sorted(i for i, n in bad.items() if n > 0)
+        extra = sorted(i for i, n in bad.items() if n < 0)
+        self.viol('conservation/%s' % ('lost' if missing else 'extra'),
+                  '%s: accepted ids %r are neither written, queued nor re-routed; unexpected %r (queue=%r written=%r)' % (key, missing, extra, q, wid))
+      # bound
+      hp_in_q = sum(1 for i in q if i in self.hp_ids)
+      if len(q) > self.cap + hp_in_q:
+        self.viol('queue/bound', '%s: queue size %d exceeds hard limit %s (+%d self-metrics)' % (key, len(q), self.hard, hp_in_q))
+      # counters
+      sent = stats.get('destinations.%s.sent' % f.destinationName, 0)
+      if sent != len(wid):
+        self.viol('counter/sent', '%s: sent counter %d but %d datapoints on the wire' % (key, sent, len(wid)))
+      drops = stats.get(f.fullQueueDrops, 0)
+      nref = sum(1 for e in ents if e['outcome'] == 'refused')
+      if drops != nref:
+        self.viol('counter/fullQueueDrops', '%s: fullQueueDrops %d but %d refusals observed' % (key, drops, nref))
+    self.counters['writes_decoded'] = sum(len(self.written(d)) for d in self.dests)
+
+  # ---------------------------------------------------------------------------- quiescence (C09 relay side)
+  def quiesce(self, limit=400, keep_down=()):
+    """Fire all timers, unpause transports and bring every destination up - except those in `keep_down`, whose
+    connection attempts keep failing (their reconnect timers are the only pending calls at the end).
+    Returns True if quiescent."""
+    fails = 0
+    for _ in range(limit):
+      progressed = False
+      for i in range(len(self.dests)):
+        c = self.connector(i)
+        if c is None:
+          continue
+        if c.state == 'connecting':
+          if i in keep_down:
+            if fails < 6:
+              c.h_connect_failed()
+              fails += 1
+              progressed = True
+          else:
+            c.h_connection_made()
+            progressed = True
+        elif c.state == 'connected' and c.protocol is not None and c.protocol.paused:
+          c.protocol.resumeProducing()
+          progressed = True
+      calls = self.fake.getDelayedCalls()
+      if keep_down and fails >= 6:
+        # only the reconnect timers of the destinations that stay down may remain
+        calls = [x for x in calls if not any(getattr(self.factory(i), '_callID', None) is x for i in keep_down)]
+      if calls:
+        t = min(c.getTime() for c in calls)
+        self.fake.advance(max(0.0, t - self.fake.seconds()))
+        progressed = True
+      self.after_event()
+      if not progressed:
+        return True
+    return False
+
+  def paused_state(self):
+    flags = dict(metricReceiversPaused=bool(self.state.metricReceiversPaused),
+                 receivers_paused=[p.transport.producerState for p in self.protos],
+                 queues=[len(self.factory(i).queue) if self.factory(i) is not None else None for i in range(len(self.dests))],
+                 up=[(self.connector(i) is not None and self.connector(i).state == 'connected') for i in range(len(self.dests))],
+                 destinations=self.manager.router.countDestinations())
+    return flags
